@@ -88,7 +88,8 @@ Definition spec_access (nk : nkind) (hook : bool) (s : switches) (perm : permkey
 
 (* ---- request handlers: which route each takes to an attribute (table regenerated from the source) ---- *)
 Inductive route :=
-| RAccess (overrider perm dflt : string)     (* self._access_attr(_, _, _, overrider, perm, dflt) *)
+| RAccess (target overrider perm dflt : string)   (* self._access_attr(target, _, _, overrider, perm, dflt); target is
+                                                        "obj" (the object the peer named) or "type(obj)" (its class) *)
 | RHandler (h : string)                      (* self._handle_<h>(...) *)
 | RRaw (what : string).                      (* getattr/setattr/delattr/hasattr/... with a non-constant name *)
 Definition htable := list (string * list route).
@@ -105,7 +106,7 @@ Fixpoint resolve (fuel : nat) (t : htable) (rs : list route) : list route :=
   end.
 Definition route_perm (r : route) : option permkey :=
   match r with
-  | RAccess o p d =>
+  | RAccess _ o p d =>
       if (String.eqb o "_rpyc_getattr" && String.eqb p "allow_getattr" && String.eqb d "getattr")%bool then Some PGet
       else if (String.eqb o "_rpyc_setattr" && String.eqb p "allow_setattr" && String.eqb d "setattr")%bool then Some PSet
       else if (String.eqb o "_rpyc_delattr" && String.eqb p "allow_delattr" && String.eqb d "delattr")%bool then Some PDel
@@ -120,6 +121,23 @@ Definition expected_perms (h : string) : list (option permkey) :=
   else if String.eqb h "delattr" then [Some PDel] else if String.eqb h "callattr" then [Some PGet]
   else if String.eqb h "cmp" then [Some PGet] else if String.eqb h "ctxexit" then [Some PGet]
   else if String.eqb h "oldslicing" then [Some PGet; Some PGet] else [].
+(* which object is handed to _access_attr -- and therefore whose hooks are consulted: Some false = the object itself,
+   Some true = type(obj), None = anything else *)
+Definition route_target (r : route) : option bool :=
+  match r with
+  | RAccess t _ _ _ => if String.eqb t "obj" then Some false else if String.eqb t "type(obj)" then Some true else None
+  | _ => None
+  end.
+Definition handler_targets (t : htable) (h : string) : list (option bool) :=
+  match lookup_h t h with Some rs => map route_target (resolve 8 t rs) | None => [None] end.
+(* every by-name handler hands over the object itself, except cmp, which hands over type(obj): on that route the
+   hooks consulted are those of the object's metaclass, NOT the object's own *)
+Definition expected_targets (h : string) : list (option bool) :=
+  if String.eqb h "cmp" then [Some true] else map (fun _ => Some false) (expected_perms h).
+Definition otarget_eqb (a b : option bool) : bool :=
+  match a, b with Some x, Some y => Bool.eqb x y | _, _ => false end.
+Fixpoint targets_eqb (a b : list (option bool)) : bool :=
+  match a, b with [], [] => true | x :: a', y :: b' => otarget_eqb x y && targets_eqb a' b' | _, _ => false end.
 Definition operm_eqb (a b : option permkey) : bool :=
   match a, b with
   | Some PGet, Some PGet | Some PSet, Some PSet | Some PDel, Some PDel => true
@@ -128,7 +146,8 @@ Definition operm_eqb (a b : option permkey) : bool :=
 Fixpoint perms_eqb (a b : list (option permkey)) : bool :=
   match a, b with [], [] => true | x :: a', y :: b' => operm_eqb x y && perms_eqb a' b' | _, _ => false end.
 Definition routes_ok (t : htable) : bool :=
-  forallb (fun e => perms_eqb (handler_perms t (fst e)) (expected_perms (fst e))) t.
+  forallb (fun e => perms_eqb (handler_perms t (fst e)) (expected_perms (fst e))
+                   && targets_eqb (handler_targets t (fst e)) (expected_targets (fst e))) t.
 (* The property is about attributes NAMED BY THE PEER.  These are the handlers that take such a name (or use a fixed one),
    in source order; the policy theorems are about them. *)
 Definition by_name_handlers : list string :=
@@ -279,6 +298,19 @@ Definition handle_restricted (g : bool) (c : cfg) (perm : permkey) (p : pyname) 
         (Raise AttributeError, flat_map (fun q => match probe_ev c n q with EGet x => r_probe_ev r x | _ => [] end) prs,
          r_under r)
     end
+  end.
+
+(* ---- _handle_cmp(obj, other, op): the name op comes from the peer, the attribute is looked up on type(obj) (modelled by
+        [ty]: the class's attributes, hook_get = a hook on the METAclass), then called with (obj, other).  The object's own
+        hooks are not consulted on this route.  [restricted]: generated fact "only the comparison protocol is served"
+        (the accessor refuses every name outside cmp_names). ---- *)
+Definition text_of_string (s : string) : text := map Byte.to_N (list_byte_of_string s).
+Definition cmp_names : list string := ["__cmp__"; "__eq__"; "__ne__"; "__lt__"; "__le__"; "__gt__"; "__ge__"]%string.
+Definition decide_cmp (restricted : bool) (g : bool) (c : cfg) (p : pyname) (ty : obj) : result via :=
+  match decide g c PGet p ty with
+  | Ok (ViaDefault final) =>
+      if restricted && negb (mem final (map text_of_string cmp_names)) then Raise AttributeError else Ok (ViaDefault final)
+  | r => r
   end.
 
 (* ---- a Service instance as the object (rpyc/core/service.py, class Service): no _rpyc_getattr (the configuration decides
